@@ -21,6 +21,8 @@ pub fn sizes(text: &str) -> Result<Vec<(&'static str, usize)>, String> {
         match pipeline::codegen(c.linear.clone(), arch) {
             Ok((asm, _)) => out.push((name, asm.lines().count())),
             Err(pipeline::StageError::Panic { msg, .. }) if pipeline::is_capacity_panic(&msg) => {}
+            // the RISC-V backend documents `print` as not implemented
+            Err(pipeline::StageError::Panic { msg, .. }) if arch == Arch::Rv && msg.contains("not implemented in RISC-V backend") => {}
             Err(e) => return Err(format!("{e}")),
         }
     }
@@ -42,7 +44,9 @@ pub fn compare(make: &dyn Fn(usize) -> String, ks: &[usize], what: &str) -> Case
             Ok(s) => s,
             Err(e) => return CaseResult::Discard(format!("family does not compile: {}", &e[..e.len().min(80)])),
         };
-        for ((stage, a), (_, b)) in s1.iter().zip(s2.iter()) {
+        for (stage, a) in s1.iter() {
+            // a backend may be skipped at one depth only (capacity assertion): compare by name
+            let Some((_, b)) = s2.iter().find(|(n, _)| n == stage) else { continue };
             if *b > FACTOR * *a {
                 return CaseResult::Fail(Failure {
                     kind: "blowup".into(),
@@ -64,7 +68,7 @@ pub fn compare(make: &dyn Fn(usize) -> String, ks: &[usize], what: &str) -> Case
 pub fn check(ctx: &Ctx) -> i32 {
     let start = Instant::now();
     let mut ev = Evidence::default();
-    ev.rule = "scalable families parameterised by (construct kinds, depth k, number of constructors 2..4, amount of trailing code): k sequenced branch points (conditional, match over c constructors, data-typed match feeding a match = critical pairs, conditional with codata result, conditionals in operand position), k nested branch points (conditional / match), and seeded random mixtures of the sequenced kinds; oracle: for k = 4..8 every stage's size (characters of printed Core, focused Core, AxCut, linearized AxCut; lines of x86-64/AArch64/RISC-V assembly) at depth 2k is at most 16x the size at depth k (degree <= 4; duplication of continuations gives a factor >= 2^k), and all stages finish. Non-trivial: every compiled family; distinct by hash of the family parameters.".into();
+    ev.rule = "scalable families parameterised by (construct kinds, depth k, number of constructors 2..4, amount of trailing code): k sequenced branch points (conditional, match over c constructors, data-typed match feeding a match = critical pairs, conditional with codata result, conditionals in operand position), k nested branch points (conditional / match), each sequenced kind also with every kind of statement directly following the branch point (call of a top-level definition with one/several arguments, print, constructor + match, destructor invocation, label + jump, arithmetic, closure creation + invocation), and seeded random mixtures of kinds and followers; oracle: for k = 4..8 every stage's size (characters of printed Core, focused Core, AxCut, linearized AxCut; lines of x86-64/AArch64/RISC-V assembly) at depth 2k is at most 16x the size at depth k (degree <= 4; duplication of continuations gives a factor >= 2^k), and all stages finish. Non-trivial: every compiled family; distinct by hash of the family parameters.".into();
     ev.assumptions = vec!["size is measured on the printed form of each stage".into()];
     let mut report = Report { violations: vec![], infra_errors: vec![] };
     let ks: Vec<usize> = ctx.tier.pick(vec![4, 6, 8], vec![4, 5, 6, 7, 8]);
@@ -76,6 +80,11 @@ pub fn check(ctx: &Ctx) -> i32 {
     }
     for kind in 0..2usize {
         fixed.push((format!("nested kind {kind}"), Box::new(move |k| nested_family(kind, k))));
+    }
+    for kind in 0..KINDS {
+        for fo in 1..FOLLOWS {
+            fixed.push((format!("sequenced kind {kind}, follow {fo}"), Box::new(move |k| size_family_with(&[kind], &[fo], k, 3, 2))));
+        }
     }
     for (name, make) in &fixed {
         let r = compare(&**make, &ks, name);
@@ -95,9 +104,13 @@ pub fn check(ctx: &Ctx) -> i32 {
         let n = ctx.tier.pick(60, 600);
         let run = |b: &[u8]| {
             let mut c = Chooser::new(b);
-            let (kinds, ctors, trailing) = random_size_family(&mut c);
+            let (kinds, follows, ctors, trailing) = random_size_family(&mut c);
             let k0 = 4 + c.choose(3);
-            compare(&|k| size_family(&kinds, k, ctors, trailing), &[k0], &format!("random mixture {kinds:?}, {ctors} constructors, trailing {trailing}"))
+            compare(
+                &|k| size_family_with(&kinds, &follows, k, ctors, trailing),
+                &[k0],
+                &format!("random mixture {kinds:?}, follows {follows:?}, {ctors} constructors, trailing {trailing}"),
+            )
         };
         let out = drive(&mut ev, ctx.seed, 19, n, 4, 24, 20, &run);
         if let Some((bytes, f)) = out.failure {
@@ -111,9 +124,9 @@ pub fn check(ctx: &Ctx) -> i32 {
 pub fn replay(_ctx: &Ctx, sub: &str, bytes: &[u8], case: &serde_json::Value) -> CaseResult {
     if sub.starts_with("random") {
         let mut c = Chooser::new(bytes);
-        let (kinds, ctors, trailing) = random_size_family(&mut c);
+        let (kinds, follows, ctors, trailing) = random_size_family(&mut c);
         let k0 = 4 + c.choose(3);
-        return compare(&|k| size_family(&kinds, k, ctors, trailing), &[k0], "random mixture");
+        return compare(&|k| size_family_with(&kinds, &follows, k, ctors, trailing), &[k0], "random mixture");
     }
     let name = case["name"].as_str().unwrap_or("");
     for kind in 0..6usize {
@@ -126,6 +139,13 @@ pub fn replay(_ctx: &Ctx, sub: &str, bytes: &[u8], case: &serde_json::Value) -> 
     for kind in 0..2usize {
         if name == format!("nested kind {kind}") {
             return compare(&move |k| nested_family(kind, k), &[4, 6, 8], name);
+        }
+    }
+    for kind in 0..KINDS {
+        for fo in 1..FOLLOWS {
+            if name == format!("sequenced kind {kind}, follow {fo}") {
+                return compare(&move |k| size_family_with(&[kind], &[fo], k, 3, 2), &[4, 6, 8], name);
+            }
         }
     }
     CaseResult::Discard("unknown family".into())
